@@ -122,6 +122,17 @@ mod v_wire_roundtrip {
         }
     }
 
+    // deliberately false twin (./check --self-test): the runner must report a failure here
+    // @harness props=C06 cfg=KW kind=mustfail tier=q to=300 mem=4 unwind=8 opts=nomem
+    #[kani::proof]
+    pub(crate) fn rt_ethernet_must_fail() {
+        let repr = EthernetRepr { src_addr: any_eth(), dst_addr: any_eth(), ethertype: EthernetProtocol::from(kani::any::<u16>()) };
+        let mut b1 = [0u8; 14];
+        repr.emit(&mut EthernetFrame::new_unchecked(&mut b1[..]));
+        let back = EthernetRepr::parse(&EthernetFrame::new_unchecked(&b1[..])).unwrap();
+        assert!(back.src_addr == repr.dst_addr, "prop:deliberately_false_source_and_destination_swapped");
+    }
+
     // ------------------------------------------------------------------ ARP
 
     // @harness props=C06 cfg=KW tier=q to=300 mem=4 unwind=8 opts=nomem covers=1 funcs=wire::arp::Repr::emit;wire::arp::Repr::parse;wire::arp::Repr::buffer_len bounds=all_field_values
@@ -848,7 +859,7 @@ mod v_wire_roundtrip {
     // Icmpv6Repr::emit of an Ndisc(..) value copies the inner NdiscRepr out of `*self`, CBMC loses its discriminant and
     // explores every NDISC emitter (out of memory at 10 GB); so only the parse side goes through Icmpv6Repr here
     // (the MLD wrapper, rt_icmpv6_mld_query_wrapped, does both directions).
-    // @harness props=C06 cfg=KW tier=t to=900 mem=8 unwind=20 opts=nomem covers=1 funcs=wire::icmpv6::Repr::parse;wire::ndisc::Repr::emit;wire::ndisc::Repr::parse bounds=neighbor_solicit_with_ethernet_lladdr;_emitted_by_NdiscRepr;_parsed_through_Icmpv6Repr
+    // @harness props=C06 cfg=KW tier=q to=300 mem=4 unwind=20 opts=nomem covers=1 funcs=wire::icmpv6::Repr::parse;wire::ndisc::Repr::emit;wire::ndisc::Repr::parse bounds=neighbor_solicit_with_ethernet_lladdr;_emitted_by_NdiscRepr;_parsed_through_Icmpv6Repr
     #[kani::proof]
     pub(crate) fn rt_icmpv6_ndisc_ns_parse_wrapped() {
         let (src, dst) = (any_v6(), any_v6());
@@ -2353,35 +2364,35 @@ mod v_wire_roundtrip {
         ($($n:ident)*) => { $(pub(crate) fn $n() {})* };
     }
     stubs! {
-        rt_ethernet reparse_ethernet rt_arp reparse_arp
-        rt_ipv4 reparse_ipv4 rt_ipv6 reparse_ipv6
-        rt_udp reparse_udp rt_igmp_query rt_igmp_report_leave
-        finding_igmp_leave_stale_max_resp_code reparse_igmp rt_icmpv4_echo rt_icmpv4_error
-        finding_icmpv4_error_unused_stale finding_icmpv4_error_cut_payload reparse_icmpv4 reparse_icmpv4_error
-        rt_icmpv6_echo_request rt_icmpv6_echo_reply_empty rt_icmpv6_echo_reply rt_icmpv6_dst_unreachable
-        rt_icmpv6_pkt_too_big rt_icmpv6_time_exceeded rt_icmpv6_param_problem finding_icmpv6_error_unused_stale
-        reparse_icmpv6_echo rt_ndisc_rs_eth rt_ndisc_rs_ieee rt_ndisc_rs_none
-        rt_icmpv6_ndisc_ns_parse_wrapped rt_ndisc_ns_eth rt_ndisc_ns_ieee rt_ndisc_na_eth
-        rt_ndisc_na_none rt_ndisc_ra_none rt_ndisc_ra_all rt_ndisc_ra_ieee_prefix
-        rt_ndisc_ra_mtu rt_ndisc_redirect_none rt_ndisc_redirect_emit_template rt_ndisc_redirect_parse_template
-        indep_ndisc_redirect_full rt_ndiscopt_sll_eth rt_ndiscopt_tll_ieee rt_ndiscopt_prefix
-        rt_ndiscopt_mtu rt_ndiscopt_redirected rt_ndiscopt_unknown finding_ndiscopt_lladdr_padding_stale
-        finding_ndiscopt_mtu_reserved_stale finding_ndiscopt_redirected_padding_stale rt_mld_query rt_mld_report
-        rt_mld_report_records finding_mld_report_records_buffer_len rt_icmpv6_mld_query_wrapped rt_ipv6_ext_header
-        rt_ipv6_ext_header_16 rt_ipv6_option_small rt_ipv6_option_unknown rt_ipv6_hbh_mld
-        rt_ipv6_hbh_max rt_ipv6_routing_type2 rt_ipv6_routing_rpl rt_ipv6_fragment
-        rt_tcp_plain rt_tcp_syn_all rt_tcp_sack3_ts rt_tcp_mss
-        rt_tcp_ws rt_tcp_sackperm rt_tcp_ts rt_tcp_mss_ws_ts
-        rt_tcp_sack1 rt_tcp_sack1_ts rt_tcp_sack2 rt_tcp_sack3
-        rt_tcp_mss_sack3_ts reparse_tcp reparse_tcp_opt4 rt_dhcp_discover
-        rt_dhcp_request rt_dhcp_ack rt_dhcp_minimal rt_dhcp_empty_lists
-        finding_dhcp_renew_rebind_lost rt_dns_query finding_dns_flags_word_stale rt_ieee802154_2003_ext_ext_comp
-        rt_ieee802154_2006_ext_ext_full rt_ieee802154_2003_short_ext_comp rt_ieee802154_2003_short_short_full rt_ieee802154_2006_ext_short_comp
-        rt_ieee802154_2003_ext_absent_comp rt_ieee802154_2015_short_short_full rt_ieee802154_2015_short_ext_comp finding_ieee802154_2015_ext_ext_comp
-        finding_ieee802154_frame_control_stale rt_sixlowpan_frag rt_sixlowpan_ext_header_inline rt_sixlowpan_ext_header_compressed
-        rt_sixlowpan_udp_nhc_inline rt_sixlowpan_udp_nhc_src_f0 finding_sixlowpan_udp_nhc_dst_f0 finding_sixlowpan_udp_nhc_both_f0b
-        finding_sixlowpan_udp_nhc_checksum_stale rt_iphc_eui64_mcast8 rt_iphc_global_global rt_iphc_unspec_mcast32
-        rt_iphc_short_short rt_iphc_ll16_ll16 rt_iphc_ll64_eui64 rt_iphc_global_ll64
-        rt_iphc_global_mcast48 finding_iphc_multicast_full
+        rt_ethernet reparse_ethernet rt_ethernet_must_fail rt_arp
+        reparse_arp rt_ipv4 reparse_ipv4 rt_ipv6
+        reparse_ipv6 rt_udp reparse_udp rt_igmp_query
+        rt_igmp_report_leave finding_igmp_leave_stale_max_resp_code reparse_igmp rt_icmpv4_echo
+        rt_icmpv4_error finding_icmpv4_error_unused_stale finding_icmpv4_error_cut_payload reparse_icmpv4
+        reparse_icmpv4_error rt_icmpv6_echo_request rt_icmpv6_echo_reply_empty rt_icmpv6_echo_reply
+        rt_icmpv6_dst_unreachable rt_icmpv6_pkt_too_big rt_icmpv6_time_exceeded rt_icmpv6_param_problem
+        finding_icmpv6_error_unused_stale reparse_icmpv6_echo rt_ndisc_rs_eth rt_ndisc_rs_ieee
+        rt_ndisc_rs_none rt_icmpv6_ndisc_ns_parse_wrapped rt_ndisc_ns_eth rt_ndisc_ns_ieee
+        rt_ndisc_na_eth rt_ndisc_na_none rt_ndisc_ra_none rt_ndisc_ra_all
+        rt_ndisc_ra_ieee_prefix rt_ndisc_ra_mtu rt_ndisc_redirect_none rt_ndisc_redirect_emit_template
+        rt_ndisc_redirect_parse_template indep_ndisc_redirect_full rt_ndiscopt_sll_eth rt_ndiscopt_tll_ieee
+        rt_ndiscopt_prefix rt_ndiscopt_mtu rt_ndiscopt_redirected rt_ndiscopt_unknown
+        finding_ndiscopt_lladdr_padding_stale finding_ndiscopt_mtu_reserved_stale finding_ndiscopt_redirected_padding_stale rt_mld_query
+        rt_mld_report rt_mld_report_records finding_mld_report_records_buffer_len rt_icmpv6_mld_query_wrapped
+        rt_ipv6_ext_header rt_ipv6_ext_header_16 rt_ipv6_option_small rt_ipv6_option_unknown
+        rt_ipv6_hbh_mld rt_ipv6_hbh_max rt_ipv6_routing_type2 rt_ipv6_routing_rpl
+        rt_ipv6_fragment rt_tcp_plain rt_tcp_syn_all rt_tcp_sack3_ts
+        rt_tcp_mss rt_tcp_ws rt_tcp_sackperm rt_tcp_ts
+        rt_tcp_mss_ws_ts rt_tcp_sack1 rt_tcp_sack1_ts rt_tcp_sack2
+        rt_tcp_sack3 rt_tcp_mss_sack3_ts reparse_tcp reparse_tcp_opt4
+        rt_dhcp_discover rt_dhcp_request rt_dhcp_ack rt_dhcp_minimal
+        rt_dhcp_empty_lists finding_dhcp_renew_rebind_lost rt_dns_query finding_dns_flags_word_stale
+        rt_ieee802154_2003_ext_ext_comp rt_ieee802154_2006_ext_ext_full rt_ieee802154_2003_short_ext_comp rt_ieee802154_2003_short_short_full
+        rt_ieee802154_2006_ext_short_comp rt_ieee802154_2003_ext_absent_comp rt_ieee802154_2015_short_short_full rt_ieee802154_2015_short_ext_comp
+        finding_ieee802154_2015_ext_ext_comp finding_ieee802154_frame_control_stale rt_sixlowpan_frag rt_sixlowpan_ext_header_inline
+        rt_sixlowpan_ext_header_compressed rt_sixlowpan_udp_nhc_inline rt_sixlowpan_udp_nhc_src_f0 finding_sixlowpan_udp_nhc_dst_f0
+        finding_sixlowpan_udp_nhc_both_f0b finding_sixlowpan_udp_nhc_checksum_stale rt_iphc_eui64_mcast8 rt_iphc_global_global
+        rt_iphc_unspec_mcast32 rt_iphc_short_short rt_iphc_ll16_ll16 rt_iphc_ll64_eui64
+        rt_iphc_global_ll64 rt_iphc_global_mcast48 finding_iphc_multicast_full
     }
 }
